@@ -500,9 +500,9 @@ pub struct Engine {
     last_materialization_errors: Vec<ChannelConflict>,
 }
 
-struct ReserveOutcome {
-    receipt: TickReceipt,
-    reserved: Vec<PendingRewrite>,
+pub(crate) struct ReserveOutcome {
+    pub(crate) receipt: TickReceipt,
+    pub(crate) reserved: Vec<PendingRewrite>,
     in_slots: std::collections::BTreeSet<SlotId>,
     out_slots: std::collections::BTreeSet<SlotId>,
 }
@@ -2005,7 +2005,7 @@ impl Engine {
         self.last_materialization_errors.clear();
     }
 
-    fn reserve_for_receipt(
+    pub(crate) fn reserve_for_receipt(
         &mut self,
         tx: TxId,
         drained: Vec<PendingRewrite>,
